@@ -16,6 +16,7 @@ KINDS = [
     ('for-target', 'for {v} in []: pass', 'any'),
     ('with-target', 'with open("f") as {v}: pass', 'any'),
     ('except-target', 'try: pass\nexcept Exception as {v}: pass', 'any'),
+    ('except-star-target', 'try: pass\nexcept* Exception as {v}: pass', 'any'),
     ('comprehension-variable', 'print([0 for {v} in []])', 'any'),
     ('def', 'def {v}(): pass', 'any'),
     ('class', 'class {v}: pass', 'any'),
@@ -94,8 +95,8 @@ print('REPRODUCED' if sorted(d for d in got if d[0] in ('W01', 'W02')) != sorted
 
 
 @harness(['C10'], 'supp.linter.lint + SourceScope.all_names [one never-read binding per kind and scope]',
-         bounded='17 binding kinds x 6 scope kinds (module, class body, function, method, nested function, function in a method), each with a '
-                 'plain and an underscore identifier; 16 parameter / star-import / __future__ forms; 18 dotted-import, repeated-word import and global / nonlocal declaration programs; one binding per module')
+         bounded='18 binding kinds x 6 scope kinds (module, class body, function, method, nested function, function in a method), each with a '
+                 'plain and an underscore identifier; 16 parameter / star-import / __future__ forms; 24 programs whose only read of a name stands in a default / annotation / decorator / base / keyword; 21 dotted-import, repeated-word import, locals() and global / nonlocal declaration programs; one binding per module')
 def unused_table(run):
     """BOUNDED stand-in for `all_names enumerates every binding once`: the real lint on one-binding modules against the exemption table of the
     property statement.  Not counted as proved."""
@@ -126,9 +127,9 @@ def unused_table(run):
                     want = []
                     if code:
                         # own name, own line (the line of the identifier: the second line for the except clause)
-                        ln = line + (1 if kind == 'except-target' else 0)
+                        ln = line + (1 if kind in ('except-target', 'except-star-target') else 0)
                         col = text.split('\n')[ln - 1].rfind(v) if kind != 'dotted-import' else text.split('\n')[ln - 1].find(v)
-                        if kind == 'except-target':
+                        if kind in ('except-target', 'except-star-target'):
                             col = text.split('\n')[ln - 1].find('except')      # C11's own rule: an except name is located at its clause
                         want = [(code, 'Unused %s: %s' % ('import' if code == 'W02' else 'name', v), ln, col)]
                     one('%s-in-%s-%s' % (kind, scope, 'underscore' if v.startswith('_') else 'plain'), text, want, path)
@@ -161,6 +162,24 @@ def unused_table(run):
         one('aliases-crossed-over-two-lines', 'from x import (a1 as b1,\n               b1 as a1)\n',
             [('W02', 'Unused import: b1', 1, 21), ('W02', 'Unused import: a1', 2, 21)], path)
         one('function-import-of-the-modules-own-name', 'def f_():\n    from time import time\n', [('W01', 'Unused name: time', 2, 21)], path)
+        # a name read only in a default, an annotation, a decorator, a base or a keyword of a definition IS read
+        for label, use in (('lambda-keyword-only-default', 'fn_ = lambda *parts_, sep_=os.sep: (parts_, sep_)\nprint(fn_)'),
+                           ('lambda-positional-default', 'fn_ = lambda a_=os.sep: a_\nprint(fn_)'),
+                           ('lambda-in-a-lambda-default', 'fn_ = lambda *, key_=(lambda item_=os.sep: item_): key_\nprint(fn_)'),
+                           ('def-keyword-only-default', 'def fn_(*parts_, sep_=os.sep): return parts_, sep_'),
+                           ('def-positional-only-default', 'def fn_(a_=os.sep, /): return a_'),
+                           ('def-annotations', 'def fn_(a_: os.PathLike, *b_: os.PathLike, c_: os.PathLike = None, **d_: os.PathLike): return a_, b_, c_, d_'),
+                           ('def-return-annotation', 'def fn_() -> os.PathLike: pass'),
+                           ('decorator', '@os.register\ndef fn_(): pass'),
+                           ('class-base', 'class K_(os.PathLike): pass'),
+                           ('class-keyword', 'class K_(metaclass=os.Meta): pass'),
+                           ('class-decorator', '@os.register\nclass K_: pass'),
+                           ('async-def-default', 'async def fn_(*, k_=os.sep): return k_')):
+            one('read-only-in-a-%s' % label, 'import os\n%s\n' % use, [], path)
+            one('read-only-in-a-%s-inside-a-function' % label, 'def outer_():\n    import os\n%s\n' % '\n'.join('    ' + l for l in use.split('\n')),
+                [('W01', 'Unused name: fn_', 3, 8)] if use.startswith('def fn_') else [('W01', 'Unused name: fn_', 3, 14)] if use.startswith('async def fn_') else
+                [('W01', 'Unused name: fn_', 4, 8)] if use.startswith('@os.register\ndef') else
+                [('W01', 'Unused name: K_', 3 if use.startswith('class') else 4, 10)] if 'class K_' in use else [], path)
         # locals() reads every local of the function, also one bound in several branches
         one('locals-reads-a-name-bound-in-two-branches', 'def f_(c_):\n    if c_:\n        unused_v = 1\n    else:\n        unused_v = 2\n    return locals()\n', [], path)
         one('locals-reads-a-name-bound-in-one-branch', 'def f_(c_):\n    if c_:\n        unused_v = 1\n    return locals()\n', [], path)
